@@ -96,6 +96,7 @@ def common_buckets(ctx, run, meta):
     ctx.bucket("tau_eff", "zero" if run.tau == 0 else ("small" if run.tau < 0.05 * c["beta"] else "large"))
     ctx.bucket("limit_sigma", f"model={c['limit_sigma']}/call={(run.case.get('call') or {}).get('limit_sigma')}")
     ctx.bucket("rating_ids", run.case.get("ids", "unique"))
+    ctx.bucket("app_types", run.case.get("flavour", "plain"))
 
 
 def aim_at_floor_window(case, rng):
